@@ -79,9 +79,19 @@ def main():
             return ledger.run_one(vh, d, work, n, dump=False, env={"GOMAXPROCS": gmp})
         with cf.ThreadPoolExecutor(max_workers=vlib.NCPU) as ex:
             results = list(ex.map(one, docs))
+        # a replica that cannot replay its chain: if every replica of that chain fails the same way there is nothing to compare (no
+        # verdict); if some replicas get through and others do not, the outcome depends on the process - that is the property
+        failed_chains = {}
         for r in results:
             if r.rc != 0:
-                raise vlib.Infra("replica %s failed (%s): %s" % (r.name, r.kind, r.err[-300:]))
+                failed_chains.setdefault(meta[r.name][0], []).append(r)
+        split = []
+        for chain, frs in failed_chains.items():
+            total = sum(1 for n in meta if meta[n][0] == chain)
+            if len(frs) == total and len({(fr.kind, (fr.last or {}).get("h")) for fr in frs}) == 1:
+                raise vlib.Infra("every replica of %s failed (%s): %s" % (chain, frs[0].kind, frs[0].err[-300:]))
+            split.append((chain, frs))
+        results = [r for r in results if r.rc == 0]
         # one replica per chain is also validated against the ledger specification
         firsts = [r for r in results if meta[r.name][1] == 0]
         stats = ledger.validate(firsts, work)
@@ -97,7 +107,14 @@ def main():
                 diff = sorted(t for t in ref if d.get(t) != ref[t])
                 if diff:
                     viol.append((chain, r, diff))
-        seen = set()
+        for (chain, frs) in split:
+            base = os.path.join(vlib.replay_dir(PID), "%s-seed%d" % (chain, seed))
+            json.dump(frs[0].doc, open(base + ".scenario.json", "w"))
+            open(base + ".why.txt", "w").write("replicas of %s do not behave alike: %s failed (%s)\n" % (chain, [fr.name for fr in frs], frs[0].kind))
+            sys.stdout.write("  replicas of %s do not behave alike: %d of them failed (%s)\n" % (chain, len(frs), frs[0].kind))
+            vlib.violation(PID, base + ".scenario.json")
+            viol.append((chain, frs[0], ["(replica failed)"]))
+        seen = set(c for (c, _) in split)
         for (chain, r, diff) in viol:
             if chain in seen:
                 continue
